@@ -26,6 +26,7 @@ pub struct C15;
 fn weighted() -> BoxedStrategy<D> {
     prop_oneof![
         5 => arb_d(),
+        2 => (arb_word_coeff(), arb_scale()).prop_map(|(c, s)| D::new(c, s)),
         // negative non-integers and exact negative integers with scale > 0
         2 => (1u8..=18, any::<u64>(), 0u32..=63, any::<bool>()).prop_map(|(s, r, sh, exact)| {
             let k = (r >> sh) as i128;
